@@ -410,6 +410,14 @@ m("twin-block-last-by-pop", ["C07"], "silent", TC,
   "        let (last, statements) = match statements.split_last() {\n            Some((Statement::StatementExpression { value, .. }, init)) => (Some(value), init),\n            Some(_) | None => (None, &statements[..]),\n        };")
 m("lower-last-statement-twice", ["C01", "C07"], ["RE-CHECK|IRCodeGen::expression_block|statement+expression"], IR,
   "            Some(Statement::StatementExpression { value, .. }) => {\n                block.pop();\n                Some(value)", "            Some(Statement::StatementExpression { value, .. }) => {\n                Some(value)")
+m("minted-id-read-after-push", ["C07"], ["MINTED|TypeChecker::push_type|TyID(..)"], TC,
+  "        let ty_id = TyID(self.types.len());\n        self.types.push(TypeNode {\n            ty,\n            parent: None,\n            size: 1,\n            constraints: BTreeMap::new(),\n        });\n        ty_id",
+  "        self.types.push(TypeNode {\n            ty,\n            parent: None,\n            size: 1,\n            constraints: BTreeMap::new(),\n        });\n        TyID(self.types.len())")
+m("minted-table-truncated-on-error", ["C07"], ["MINTED|types|never-shrinks"], TC,
+  "    fn resolve_type(&mut self, ctx: TypeCtx, ty: &ResolverType) -> TypeResult<TyID> {\n        let t = self.inner_resolve_type(ctx, ty, &mut HashMap::new())?;",
+  "    fn resolve_type(&mut self, ctx: TypeCtx, ty: &ResolverType) -> TypeResult<TyID> {\n        let before = self.types.len();\n        let t = match self.inner_resolve_type(ctx, ty, &mut HashMap::new()) {\n            Ok(t) => t,\n            Err(e) => {\n                self.types.truncate(before);\n                return Err(e);\n            }\n        };")
+m("twin-minted-find-renamed-locals", ["C07"], "silent", TC,
+  "        let mut root = a;\n        while let Some(TyID(next)) = self.types[root].parent {\n            root = next;\n        }", "        let mut top = a;\n        while let Some(TyID(up)) = self.types[top].parent {\n            top = up;\n        }\n        let root = top;")
 m("bracket-index-no-newline-mode", ["C14"], ["BRACKET-MODE|assignable_index|LeftBracket", "NEWLINE-MODE"], PPA,
   "    let (mut ctx, skip_newlines) = ctx.push_skip_newlines(true);\n\n    let expr =", "    let (mut ctx, skip_newlines) = ctx.push_skip_newlines(ctx.skip_newlines);\n\n    let expr =")
 m("bracket-list-type-no-newline-mode", ["C14"], ["BRACKET-MODE|parse_type|LeftBracket", "NEWLINE-MODE"], PPA,
